@@ -38,11 +38,66 @@ class Unsupported(Exception):
 
 
 class Raised(Exception):
-    """a `raise` statement of the interpreted code"""
+    """a `raise` statement of the interpreted code: the name of the exception class, the source text of the raise, and - when the
+    expression could be evaluated - the exception object itself (a builtin exception instance, or the record of a repository /
+    local exception class) with the names of all the classes it is an instance of"""
 
-    def __init__(self, name, text):
+    def __init__(self, name, text, value=None, bases=()):
         Exception.__init__(self, text)
         self.name = name
+        self.value = value
+        self.bases = tuple(bases)
+
+    def __str__(self):
+        v = self.value
+        if isinstance(v, BaseException):
+            return str(v)
+        if v is not None and hasattr(v, 'fields') and 'args' in getattr(v, 'fields', {}):
+            a = v.fields['args']
+            return '' if not a else (str(a[0]) if len(a) == 1 else str(tuple(a)))
+        return Exception.__str__(self)
+
+
+def _as_callable(v):
+    """a record whose class defines __call__, as a Python callable (handed to map, filter, sorted ...)"""
+    if isinstance(v, Obj) and '__call__' in v.methods:
+        return lambda *a, **k: v.call('__call__', *a, **k)
+    return v
+
+
+def _builtin_exception(name):
+    import builtins
+    c = getattr(builtins, name, None)
+    return c if isinstance(c, type) and issubclass(c, BaseException) else None
+
+
+def exception_names(cls):
+    """names of a builtin exception class and of all its bases"""
+    return tuple(c.__name__ for c in cls.__mro__ if c is not object)
+
+
+def _raise_value(v, text, cause=None):
+    """the Raised for an evaluated `raise` operand"""
+    if isinstance(v, Raised):
+        return v
+    if isinstance(v, type) and issubclass(v, BaseException):
+        v = v()
+    if isinstance(v, BaseException):
+        if isinstance(v, (Unsupported,)):
+            return v
+        if cause is not None:
+            try:
+                v.__cause__ = cause if isinstance(cause, BaseException) else None
+            except Exception:           # noqa: BLE001
+                pass
+        return Raised(type(v).__name__, text, v, exception_names(type(v)))
+    if callable(v) and not isinstance(v, Obj) and getattr(v, 'isa', None) == ('type',) or (hasattr(v, '_qual') and callable(v)):
+        v = v()                          # raise SomeRepositoryError  (the class itself)
+    if isinstance(v, Obj) and getattr(v, 'excbases', None):
+        if cause is not None or True:
+            v.fields.setdefault('__cause__', cause)
+        return Raised(v.clsname, text, v, v.excbases)
+    return None
 
 
 _CONTAINER_METHODS = {
@@ -90,6 +145,20 @@ def _repo_method(v, name):
     return None
 
 
+class _ClsSuper(PyStub):
+    """super() inside __init_subclass__ / a class method whose bases define nothing of that name: object's hooks"""
+
+    def __init_subclass__(self, *a, **k):
+        return None
+
+    def __getattr__(self, name):
+        if name == '__init_subclass__':
+            return lambda *a, **k: None
+        if name in ('repo_methods', 'repo_funcs', 'isa', 'clsname', 'owners') or name.startswith('_'):
+            raise AttributeError(name)
+        raise Unsupported('super().%s in a class-level method' % name)
+
+
 class _SuperProxy(PyStub):
     """super(...) inside a repository class interpreted on an abstract object derived from a builtin: the builtin's own methods"""
 
@@ -128,6 +197,8 @@ class _ObjSuper(PyStub):
                 fn_ = table[name]
                 return lambda *a, **k: o.call(name, *a, _fn=fn_, _owner=cname, **k)
         if name == '__init__':
+            if getattr(o, 'excbases', None):
+                return lambda *a, **k: o.fields.__setitem__('args', tuple(a))         # BaseException.__init__
             return lambda *a, **k: None             # object.__init__
         raise AttributeError("'super' object has no attribute %r" % name)
 
@@ -212,6 +283,9 @@ class Obj:
             return self.call('__str__')
         if getattr(self, 'enum_member', None):
             return '%s.%s' % self.enum_member
+        if getattr(self, 'excbases', None):
+            a = self.fields.get('args', ())
+            return '' if not a else (str(a[0]) if len(a) == 1 else str(tuple(a)))
         if '__repr__' in self.methods:
             return self.call('__repr__')
         return '<%s object>' % (self.clsname or 'record')
@@ -219,6 +293,9 @@ class Obj:
     def __repr__(self):
         if '__repr__' in self.methods:
             return self.call('__repr__')
+        if getattr(self, 'excbases', None):
+            a = tuple(self.fields.get('args', ()))
+            return '%s(%s)' % (self.clsname, ', '.join(repr(x_) for x_ in a))
         if getattr(self, 'enum_member', None):
             return '<%s.%s: %r>' % (self.enum_member + (self.fields.get('value'),))
         if getattr(self, 'ntfields', None):
@@ -337,6 +414,13 @@ def _result(fn, env, kind, val):
 def _bind_params(fn, params, args, kwargs, env, funcs, name):
     """bind actuals to the formals `params` (self already removed) of the FunctionDef fn: defaults, *args, keyword-only, **kwargs"""
     allp = [a.arg for a in fn.args.args]
+    posonly = [a.arg for a in getattr(fn.args, 'posonlyargs', [])]
+    if posonly:
+        # def f(a, b, /, c): the callers pass the regular formals (minus self); the positional-only ones come first
+        dropped = len(allp) - len(params)
+        allp = posonly + allp
+        params = allp[dropped:]
+        posonly = [p_ for p_ in posonly if p_ in params]
     defaults = fn.args.defaults
     # Python evaluates a default once, when the function is defined: the value (a list, a dict ...) is shared by all calls
     cache = funcs.setdefault('__default_values__', {}) if isinstance(funcs, dict) else {}
@@ -359,7 +443,9 @@ def _bind_params(fn, params, args, kwargs, env, funcs, name):
             env[a.arg] = cache[id(d)][1]
     rest = {}
     for k, v in kwargs.items():
-        if k in params or k in kwonly:
+        if (k in params and k not in posonly) or k in kwonly:
+            if k in params and params.index(k) < len(args):
+                raise TypeError('%s() got multiple values for argument %r' % (name, k))
             env[k] = v
         elif fn.args.kwarg is not None:
             rest[k] = v
@@ -407,6 +493,8 @@ def _to_str(v):
     if isinstance(v, Obj):
         if '__str__' in v.methods:
             return v.call('__str__')
+        if getattr(v, 'excbases', None):
+            return str(v)
         return '<%s>' % (v.clsname or 'object')
     if isinstance(v, PyStub):
         return '<%s>' % type(v).__name__
@@ -520,6 +608,8 @@ def _kw(n, env, funcs):
     for k in n.keywords:
         if k.arg:
             out[k.arg] = ev(k.value, env, funcs)
+            if k.arg == 'key':
+                out[k.arg] = _as_callable(out[k.arg])         # (a record with __call__ handed over as key=)
         else:
             d = ev(k.value, env, funcs)
             if not isinstance(d, dict):
@@ -1367,7 +1457,13 @@ def _run_with(s, k, env, funcs, limit):
     try:
         r = _run_with(s, k + 1, env, funcs, limit)
     except _BODY_ERRORS as ex:
-        if _cm_call(cm, '__exit__', type(ex), ex, None):
+        et_, ev_ = type(ex), ex
+        if isinstance(ex, Raised) and ex.value is not None:
+            ev_ = ex.value
+            et_ = type(ev_) if isinstance(ev_, BaseException) else getattr(ev_, 'cls_object', type(ex))
+        elif isinstance(ex, Raised) and _builtin_exception(ex.name) is not None:
+            et_ = _builtin_exception(ex.name)
+        if _cm_call(cm, '__exit__', et_, ev_, None):
             return ('fall', None)
         raise
     _cm_call(cm, '__exit__', None, None, None)
@@ -1380,8 +1476,11 @@ def _matching_handler(s, ex):
     excls = getattr(builtins, exname, None) if isinstance(ex, Raised) else type(ex)
     if not (isinstance(excls, type) and issubclass(excls, BaseException)):
         excls = None
+    also = set(getattr(ex, 'bases', ()) or ())
     for h in s.handlers:
         names = [] if h.type is None else [ast.unparse(x).split('.')[-1] for x in (h.type.elts if isinstance(h.type, ast.Tuple) else [h.type])]
+        if also & set(names):
+            return h
         if h.type is None or exname in names or 'BaseException' in names or ('Exception' in names and exname not in ('SystemExit', 'KeyboardInterrupt', 'GeneratorExit')):
             return h
         for nm in names:            # the hierarchy of the builtin exceptions (LookupError, ArithmeticError, RuntimeError, OSError ...)
@@ -1410,9 +1509,13 @@ def ev(n, env, funcs=None):
             except Unsupported:
                 if n.id in _VALUE_BUILTINS:
                     return builtin_value(n.id, funcs)
+                if _builtin_exception(n.id) is not None:
+                    return _builtin_exception(n.id)
                 raise
         if n.id in _VALUE_BUILTINS:
             return builtin_value(n.id, funcs)
+        if _builtin_exception(n.id) is not None:
+            return _builtin_exception(n.id)
         raise Unsupported('free name %s' % n.id)
     if isinstance(n, ast.Attribute):
         txt = _unparse(n)
@@ -1440,12 +1543,16 @@ def ev(n, env, funcs=None):
             if an in v.fields:
                 return v.fields[an]
             cc = getattr(v, 'consts', None) or {}
-            if an in cc:
-                return cc[an]
-            if n.attr in cc:
-                return cc[n.attr]
+            if an in cc or n.attr in cc:
+                cv_ = cc[an] if an in cc else cc[n.attr]
+                if isinstance(cv_, Obj) and '__get__' in cv_.methods:
+                    return cv_.call('__get__', v, None)           # a descriptor kept at class level
+                return cv_
             if n.attr in v.methods:
                 if _is_property(v.methods[n.attr]):
+                    if any('cached_property' in ast.unparse(d_) for d_ in v.methods[n.attr].decorator_list):
+                        v.fields[n.attr] = v.call(n.attr)         # functools.cached_property: computed once, then an instance attribute
+                        return v.fields[n.attr]
                     return v.call(n.attr)              # @property: reading the attribute runs the getter
                 return _BoundMethod(v, n.attr)
             if _demangled(v, n.attr) is not None:
@@ -1479,6 +1586,12 @@ def ev(n, env, funcs=None):
             return getattr(v, n.attr)              # a field of a namedtuple
         if _is_std_container(v) and n.attr in ('maxlen', 'default_factory', 'maps'):
             return getattr(v, n.attr)
+        if isinstance(v, BaseException) and not isinstance(v, (Unsupported, Raised)) and n.attr in ('args', '__cause__', '__context__', 'errno', 'strerror', 'filename', 'code', 'value', 'name', 'key', 'obj'):
+            return getattr(v, n.attr)
+        if isinstance(v, Raised) and n.attr == 'args':
+            return (str(v),)
+        if isinstance(v, Raised) and n.attr in ('__cause__', '__context__'):
+            return None
         raise Unsupported('attribute %s' % txt)
     if isinstance(n, ast.Subscript):
         base = ev(n.value, env, funcs)
@@ -1621,6 +1734,12 @@ def ev(n, env, funcs=None):
             if isinstance(rv, Obj) and fname not in rv.methods and callable(rv.fields.get(_mangled(fname, env))):
                 # a callable stored in a field (a model function handed to the object)
                 return rv.fields[_mangled(fname, env)](*_args(n, env, funcs), **_kw(n, env, funcs))
+            if isinstance(rv, Obj) and fname not in rv.methods and fname not in rv.fields:
+                import types as _types2
+                cf_ = (getattr(rv, 'consts', None) or {}).get(fname)
+                if isinstance(cf_, _types2.FunctionType):
+                    # a function bound to a class attribute after the class body (by a class decorator, by Cls.name = function): a method
+                    return cf_(rv, *_args(n, env, funcs), **_kw(n, env, funcs))
             if isinstance(rv, Obj) and fname not in rv.methods and _mangled(fname, env) not in rv.methods and _mangled(fname, env) not in rv.fields \
                     and '__getattr__' in rv.methods and not (getattr(rv, 'ntfields', None) and fname in ('_replace', '_asdict')):
                 target_ = rv.call('__getattr__', fname)
@@ -1686,6 +1805,10 @@ def ev(n, env, funcs=None):
                 return True
             if any(isinstance(v0, t_) for t_ in pytypes if t_.__module__ == 'builtins'):
                 return True
+            if isinstance(v0, BaseException):
+                if isinstance(v0, Raised):
+                    return bool(({v0.name} | set(v0.bases)) & names) or any(_builtin_exception(v0.name) is not None and _builtin_exception(nm_) is not None and issubclass(_builtin_exception(v0.name), _builtin_exception(nm_)) for nm_ in names)
+                return any(_builtin_exception(nm_) is not None and isinstance(v0, _builtin_exception(nm_)) for nm_ in names)
             return any(isinstance(v0, builtin[nm_]) for nm_ in names if nm_ in builtin)        # subclasses included, as in Python
         args = []
         for a_ in n.args:
@@ -1693,6 +1816,15 @@ def ev(n, env, funcs=None):
                 args.extend(_iter(ev(a_.value, env, funcs), a_.value))
             else:
                 args.append(ev(a_, env, funcs))
+        if isinstance(f, ast.Name) and f.id not in env and _builtin_exception(fname) is not None and not (isinstance(funcs, dict) and fname in funcs):
+            shadow_ = None
+            if funcs and '__name__' in funcs:
+                try:
+                    shadow_ = funcs['__name__'](fname)
+                except Unsupported:
+                    shadow_ = None
+            if shadow_ is None or shadow_ is _builtin_exception(fname):
+                return _builtin_exception(fname)(*args, **_kw(n, env, funcs))        # ValueError('...'): the exception object
         if fname == 'float' and len(args) == 1 and isinstance(args[0], str):
             return float(args[0])           # ValueError for text that is not a number, as in Python (isfloat() relies on it)
         if isinstance(f, ast.Name) and fname == 'eval' and len(args) == 1 and isinstance(args[0], str):
@@ -1703,6 +1835,8 @@ def ev(n, env, funcs=None):
                 raise Raised('SyntaxError', str(ex))
             return ev(tree.body, env, funcs)
         if isinstance(f, ast.Name) and fname == 'super':
+            if 'self' not in env and 'cls' in env and not args:
+                return _ClsSuper()               # (in a class-level hook: super().__init_subclass__(**kw) reaches object's, which does nothing)
             if 'self' not in env:
                 raise Unsupported('super() outside a method')
             if isinstance(env['self'], Obj):
@@ -1747,6 +1881,7 @@ def ev(n, env, funcs=None):
                 return list(args[0]) if fname == 'list' else tuple(args[0])
         _shadowed = fname in env or bool(funcs and fname in funcs and fname not in funcs.get('__defaults__', ()) and fname not in funcs.get('__np_names__', ()))
         if isinstance(f, ast.Name) and not _shadowed and fname in ('map', 'filter') and len(args) >= 2 and not n.keywords:
+            args[0] = _as_callable(args[0])
             if fname == 'map':
                 if not callable(args[0]):
                     raise TypeError('%r object is not callable' % type(args[0]).__name__)
@@ -1852,12 +1987,13 @@ def ev(n, env, funcs=None):
                     _TYPE_CACHE[q_] = type(nm_, (), {'__module__': mod_})
                 return _TYPE_CACHE[q_]
             return type(args[0])
-        if isinstance(f, ast.Name) and fname == 'str' and len(args) == 1 and isinstance(args[0], (type, str, int, float)):
+        if isinstance(f, ast.Name) and fname == 'str' and len(args) == 1 and (isinstance(args[0], (type, str, int, float)) or (isinstance(args[0], BaseException) and not isinstance(args[0], Unsupported))):
             return str(args[0])
         if isinstance(f, ast.Name) and fname == 'str' and len(args) == 1 and (args[0] is None or isinstance(args[0], (PyStub, Obj, list, tuple, dict))):
             if isinstance(args[0], Obj) and '__str__' in args[0].methods:
                 return args[0].call('__str__')
-            if isinstance(args[0], Obj) and (getattr(args[0], 'enum_member', None) or getattr(args[0], 'ntfields', None) or getattr(args[0], 'dcfields', None) is not None or '__repr__' in args[0].methods):
+            if isinstance(args[0], Obj) and (getattr(args[0], 'enum_member', None) or getattr(args[0], 'ntfields', None) or getattr(args[0], 'dcfields', None) is not None or '__repr__' in args[0].methods
+                                             or getattr(args[0], 'excbases', None)):
                 return str(args[0])
             return '<%s>' % type(args[0]).__name__ if isinstance(args[0], (PyStub, Obj)) else str(args[0])
         if fname in ('int', 'float', 'bool') and len(args) == 1:
@@ -1963,7 +2099,8 @@ def ev(n, env, funcs=None):
                 return None
             if fname == 'iter' and len(args) == 1:
                 return _iter(args[0], n)
-            if fname == 'iter' and len(args) == 2 and callable(args[0]):
+            if fname == 'iter' and len(args) == 2 and callable(_as_callable(args[0])):
+                args[0] = _as_callable(args[0])
                 return iter(args[0], args[1])
             if fname == 'next' and 1 <= len(args) <= 2:
                 it_ = args[0]
@@ -2097,6 +2234,11 @@ def ev(n, env, funcs=None):
         if t is ast.LShift:
             return a << b
         if t in (ast.BitAnd, ast.BitOr, ast.BitXor) and isinstance(a, int) and isinstance(b, int):
+            return a & b if t is ast.BitAnd else (a | b if t is ast.BitOr else a ^ b)
+        _setlike = (set, frozenset, type({}.keys()), type({}.items()))
+        if t in (ast.BitAnd, ast.BitOr, ast.BitXor) and ((isinstance(a, _setlike) and isinstance(b, _setlike)) or (t is ast.BitOr and isinstance(a, dict) and isinstance(b, dict))
+                                                       or (hasattr(a, 'dtype') or hasattr(b, 'dtype'))):
+            # set / dict-view algebra, dict union (their members are compared through the records' own __eq__ / __hash__), element-wise masks
             return a & b if t is ast.BitAnd else (a | b if t is ast.BitOr else a ^ b)
         if t is ast.MatMult:
             return a @ b
@@ -2395,9 +2537,22 @@ def run_block(stmts, env, funcs=None, limit=10000):
                 raise Unsupported('del %s' % ast.unparse(t))
         elif isinstance(s, ast.Raise):
             if s.exc is None:
-                raise Unsupported('bare raise')
+                cur = env.get('__handling__')
+                if cur is None:
+                    raise RuntimeError('No active exception to reraise')
+                raise cur
             fnode = s.exc.func if isinstance(s.exc, ast.Call) else s.exc
-            raise Raised(ast.unparse(fnode).split('.')[-1], ast.unparse(s.exc)[:200])
+            text_ = ast.unparse(s.exc)[:200]
+            r_ = None
+            try:
+                v_ = ev(s.exc, env, funcs)
+                cause_ = ev(s.cause, env, funcs) if s.cause is not None else None
+                r_ = _raise_value(v_, text_, cause_)
+            except Unsupported:
+                r_ = None
+            if r_ is not None:
+                raise r_
+            raise Raised(ast.unparse(fnode).split('.')[-1], text_)
         elif isinstance(s, ast.Try):
             try:
                 r = run_block(s.body, env, funcs, limit)
@@ -2408,13 +2563,17 @@ def run_block(stmts, env, funcs=None, limit=10000):
                         run_block(s.finalbody, env, funcs, limit)
                     raise
                 if h.name:
-                    env[h.name] = ex
+                    env[h.name] = ex.value if isinstance(ex, Raised) and ex.value is not None else ex
+                outer_ = env.get('__handling__')
+                env['__handling__'] = ex
                 try:
                     r = run_block(h.body, env, funcs, limit)
                 except BaseException:
+                    env['__handling__'] = outer_
                     if s.finalbody:
                         run_block(s.finalbody, env, funcs, limit)
                     raise
+                env['__handling__'] = outer_
             else:
                 if s.orelse:
                     r2 = run_block(s.orelse, env, funcs, limit)
@@ -2484,6 +2643,9 @@ class _LocalClass(PyStub):
                 v = ev(b, env, funcs)
             except Unsupported:
                 v = None
+            if isinstance(v, type) and issubclass(v, BaseException):
+                object.__setattr__(self, '_excbase', v)
+                continue
             if not isinstance(v, _LocalClass):
                 raise Unsupported('local class %s with base %s' % (node.name, ast.unparse(b)))
             bases.append(v)
@@ -2572,6 +2734,21 @@ class _LocalClass(PyStub):
         object.__setattr__(self, '_dcopts', dcopts)
         object.__setattr__(self, '_dcfields', dcfields if dcopts is not None else None)
 
+    def _excnames(self):
+        out = [self._node.name]
+        d = object.__getattribute__(self, '__dict__')
+        for b in d.get('_bases', ()):
+            for n_ in b._excnames():
+                if n_ not in out:
+                    out.append(n_)
+        if d.get('_excbase') is not None:
+            out.extend(n_ for n_ in exception_names(d['_excbase']) if n_ not in out)
+        return out
+
+    def _is_exception(self):
+        d = object.__getattribute__(self, '__dict__')
+        return d.get('_excbase') is not None or any(b._is_exception() for b in d.get('_bases', ()))
+
     def _mro(self):
         out = [(self._node.name, dict(self._own))]
         for b in self._bases:
@@ -2613,8 +2790,15 @@ class _LocalClass(PyStub):
         if self._dcopts is not None:
             obj.dcfields = tuple(f_[0] for f_ in self._dcfields)
             obj.dcopts = self._dcopts
+        if self._is_exception():
+            obj.excbases = tuple(self._excnames())
+            obj.isa = set(obj.isa) | set(obj.excbases)
+            obj.fields['args'] = tuple(args)
         if '__init__' in obj.methods:
             obj.call('__init__', *args, **kwargs)
+        elif self._is_exception():
+            if kwargs:
+                raise TypeError('%s() takes no keyword arguments' % node.name)
         elif self._dcopts is not None and self._dcopts['init']:
             names_ = [f_[0] for f_ in self._dcfields if f_[3]]
             if len(args) > len(names_):
@@ -2814,6 +2998,10 @@ def _bind(t, v, env, funcs=None):
                 raise _dc.FrozenInstanceError("cannot assign to field %r" % t.attr)
             if getattr(base, 'ntfields', None) and t.attr in base.ntfields:
                 raise AttributeError("can't set attribute")
+            cd_ = (getattr(base, 'consts', None) or {}).get(t.attr)
+            if isinstance(cd_, Obj) and '__set__' in cd_.methods and t.attr not in base.fields:
+                cd_.call('__set__', base, v)                    # a data descriptor kept at class level
+                return
             if t.attr in base.methods and _is_property(base.methods[t.attr]) and t.attr not in base.fields:
                 if t.attr + '.setter' not in base.methods:
                     raise AttributeError("property %r of %r object has no setter" % (t.attr, base.clsname))
